@@ -50,6 +50,7 @@ func fixedCases() []corr.Case {
 		// ReadFrom / WriteTo
 		mk("fixed-io", "new", "readfrom x0:1300 eof 0 512 512 512", "cap", "readfrom 6162 err 2", "readfrom 6162 neg 0 1", "readfrom 6162 over 0 1 0", "bytes",
 			"writeto short 5", "writeto err 3", "writeto over", "writeto err 100000", "len", "writeto all", "writeto all", "writeto over"),
+		mk("fixed-io", "new", "readfrom x9:3000 eof+ 0", "len", "cap", "readfrom x1:600 err+ 7 1 0 512", "len", "readfrom 616263 neg+ 0", "readfrom - over+ 3", "bytes", "cap"),
 		mk("fixed-io", "new", "write 6162", "readfrom x5:700 eof 100 0 0 300 0 300", "bytes", "cap", "off", "writeto short 702", "len"),
 		// ReWrite / NewSizedBuffer
 		mk("fixed-rewrite", "news 16", "cap", "len", "write 0000000068656c6c6f", "rewrite 0 00000005", "bytes", "rewrite 7 ffffffffff", "bytes", "rewrite 9 aa", "rewrite 10 aa", "rewrite -1 aa", "bytes"),
@@ -187,6 +188,9 @@ func (g *gen) payload(n int) string {
 func (g *gen) readfrom() string {
 	total := g.size()
 	term := g.r.Pick("eof", "eof", "eof", "err", "neg", "over")
+	if g.r.Chance(2, 5) {
+		term += "+"
+	}
 	tail := g.r.PickInt(0, 0, 1, 7, tex.MinRead)
 	var ks []string
 	for i, n := 0, g.r.Intn(5); i < n; i++ {
@@ -286,7 +290,7 @@ var wRewrite = []weighted{{"rewrite", 30}, {"write", 20}, {"writebyte", 5}, {"re
 
 var malformed = []string{"nop", "write", "write 0", "write 0g", "write AB", "writebyte", "writebyte 0102", "writebyte -", "writerune", "writerune 2147483648",
 	"writerune x", "read", "read -1", "read 1 2", "readbyte 1", "next", "next 1 2", "truncate", "grow", "grow 1 2", "readfrom", "readfrom 00", "readfrom 00 eof",
-	"readfrom 00 nope 0", "readfrom 00 eof x", "readfrom 00 eof 0 -1", "writeto", "writeto short", "writeto all 1", "writeto some 1", "rewrite", "rewrite 1",
+	"readfrom 00 nope 0", "readfrom 00 eof x", "readfrom 00 eof 0 -1", "readfrom 00 eof++ 0", "readfrom 00 + 0", "writeto", "writeto short", "writeto all 1", "writeto some 1", "rewrite", "rewrite 1",
 	"rewrite x 00", "len 1", "cap 1", "newb", "newb 00", "news", "news x", "new 1", "write x1", "write x1:2:3", "write x1:2000000"}
 
 func genCase(r *rng.R, tier string, i int) corr.Case {
